@@ -28,6 +28,8 @@ def run(rep, tier, seed):
             dict(name="core_len4", maxinstr=4, maxhist=1, ops="OpsCore", points="PtsP1small", seeds="NoSeeds", rec_kinds=("U", "A"), max_replay=20000),
         ]
     T.tracer_check(rep, configs, "C05")
+    T.full_api_replays(rep, seed, n=48 if q else 400)
+    T.validate_recorded(rep, "C05", repo_tests=True)
     T.self_test(rep)
     return rep.finish("one case = (program recorded instruction by instruction, sequence of re-evaluations with inputs of kind "
                       "ndarray / UTPM(D,P), kind used while recording); non-trivial = >= 2 instructions and >= 1 call; "
